@@ -74,8 +74,8 @@ CHECKS["C04"] = {
 CHECKS["C19"] = {
     "level": "fault_enumeration",
     "technique": _TECH + ": the k-th read or write of the endpoint under test never completes, for every k, while its context is cancelled or expires before, during and after; virtual clock",
-    "level_text": "Fault enumeration over I/O steps: a fault-free baseline inside the simulator counts the reads and writes (N, typically 10-60) the endpoint under test performs in a plain message exchange (sender and receiver, stream and Message APIs) and in every handshake shape (no authentication + encryption, CLAIMTOBE, TOKEN, resumed) in both roles, plus the connection-owning entry points client.ConnectAndAuthenticateWithConfig (through the dial hook) and server.ServeConn; then for every k <= N+1 the k-th read or write is stalled for ever, combined with: an explicit cancel 1 s (virtual) after the stall began, a 30 s deadline context, a cancel at a drawn early instant, a context cancelled before the call, and Background. Oracle: once the context is done the call returns within 1 s of virtual time (a task still parked at quiescence is the violation), with a non-nil error that for plain stream operations is the context's own error; the interrupted connection was closed by the endpoint; the owning entry points close their connection on any error return; Background / never-cancelled / cancelled-after-completion runs succeed.",
-    "level_note": "The peer is an honest real cedar endpoint on a Background context. SSL, FS, KERBEROS and SCITOKENS handshakes are not run (SSL halves do not interoperate; the others need external services or touch /tmp).",
+    "level_text": "Fault enumeration over I/O steps: a fault-free baseline inside the simulator counts the reads and writes (N, typically 10-60) the endpoint under test performs in a plain message exchange (sender and receiver, stream and Message APIs) and in every handshake shape (no authentication + encryption, CLAIMTOBE, TOKEN, FS on the real /tmp, resumed, failed negotiation) in both roles, plus the connection-owning entry points client.ConnectAndAuthenticateWithConfig (through the dial hook) and server.ServeConn; then for every k <= N+1 the k-th read or write is stalled for ever, combined with: an explicit cancel 1 s (virtual) after the stall began, a 30 s deadline context, a cancel at a drawn early instant, a context cancelled before the call, and Background. Oracle: once the context is done the call returns within 1 s of virtual time (a task still parked at quiescence is the violation), with a non-nil error that for plain stream operations is the context's own error; the interrupted connection was closed by the endpoint; the owning entry points close their connection on any error return; Background / never-cancelled / cancelled-after-completion runs succeed.",
+    "level_note": "The peer is an honest real cedar endpoint on a Background context. SSL, KERBEROS and SCITOKENS handshakes are not run (SSL halves do not interoperate; the others need external services). The FS shape uses the real /tmp; the directory an abandoned exchange leaves is removed by the harness (its name is read from the tapped cleartext).",
     "budget": {"quick": 25, "thorough": 600},
     "rule": "a case is one (shape, role, stalled step k, cancellation mode) run; distinct = distinct event-log hash (includes where the stall fired and when the connection was closed); non-trivial = a stall fired or the scheduler had a choice.",
     "real": _REAL_SEC + ["client.ConnectAndAuthenticateWithConfig", "server.ServeConn"],
